@@ -90,7 +90,7 @@ TPLS = [
     ("global-call-star-first", ("F", "H0:u", 1), True),
 ]
 
-FILLS = ("pe", "star", "dstar")
+FILLS = ("pe", "star", "dstar", "sx", "star-sx", "dstar-sx")
 
 
 def leaf(kind, c):
@@ -115,6 +115,19 @@ def mkfill(fill, kind, c):
         if kind == "u":
             return None
         return ("E", s, leaf(kind, c))
+    if fill == "sx":
+        # a statement-producing operand: its statements must not be lost either
+        if kind == "u":
+            return None
+        c["site"] += 1
+        return ("do", ("E", s, 0), ("E", s + 1, leaf(kind, c)))
+    if fill == "star-sx":
+        c["site"] += 1
+        lf = ("[", leaf("xs", c)) if kind == "xs" else ("[", leaf(kind if kind != "u" else "x", c))
+        return ("unpack-iterable", ("do", ("E", s, 0), ("E", s + 1, lf)))
+    if fill == "dstar-sx":
+        c["site"] += 1
+        return ("unpack-mapping", ("do", ("E", s, 0), ("E", s + 1, ("{", ("str", "k"), leaf("x", c)))))
     if fill == "star":
         if kind == "xs":
             # an iterable-typed slot: unpack a list holding one list
@@ -309,8 +322,7 @@ def spec(tier, seed):
         ],
         "bounds": "%d form templates (collection displays, calls, method calls, get/cut/./subscript targets, arithmetic/comparison/unary/logical operators incl. "
                   "unary forms, if/when/cond tests, setv/setx/augmented assignment, let, fn defaults, return, assert, while, for, comprehensions, with, try, raise, "
-                  "f-string fields and specs, quasiquote, class bases, decorators, annotations, del, chainc, yield); each slot filled with {effectful call, #* effectful, "
-                  "#** effectful}, other slots effectful; operand ints and lists symbolic" % len(TPLS),
+                  "f-string fields and specs, quasiquote, class bases, decorators, annotations, del, chainc, yield); each slot filled with {effectful call, statement-producing form, #* / #** of an effectful call, #* / #** of a statement-producing form}, other slots effectful; operand ints and lists symbolic" % len(TPLS),
         "outside": "forms not listed; runs that end in an exception are not judged (the exception may legitimately cut evaluation short)",
         "stubs": ["crosshair.util.getsourcelines wrapper for .hy-defined callees"],
         "assumptions": ["every hole of every template is in an unconditionally evaluated position, so a normal run must log every site exactly once"],
